@@ -55,7 +55,7 @@ def identPerm (o : Opts) (nodes : List Json) : Bool :=
 def oracleC01 (o : Opts) (a b : Json) (implEq : Bool) (out : Outcome Json) : String :=
   let bad (why : String) : String :=
     if identPerm o (subterms a ++ subterms b) then "kf KF-C01-identperm " ++ why
-    else if setMode o && !(aliasFree o (subterms a ++ subterms b)) then "kf KF-C04-alias " ++ why
+    else if !(aliasFree o (subterms a ++ subterms b)) then "kf KF-C04-alias " ++ why
     else "fail " ++ why
   match out with
   | .ok r =>
@@ -84,7 +84,7 @@ def oracleC04 (o : Opts) (a b : Json) (implEq implEqRev implRefl : Bool) : Strin
   let cls (why : String) : String :=
     if identPerm o (subterms a ++ subterms b) then "kf KF-C01-identperm " ++ why
     else if setMode o && (hasNegZero a || hasNegZero b) && equivB o a b && !implEq then "kf KF-C04-negzero " ++ why
-    else if setMode o && !(aliasFree o (subterms a ++ subterms b)) then "kf KF-C04-alias " ++ why
+    else if !(aliasFree o (subterms a ++ subterms b)) then "kf KF-C04-alias " ++ why
     else "fail " ++ why
   if implEq != spec then cls s!"Equals={implEq} but the advertised equivalence says {spec}"
   else if implEq != implEqRev then cls "Equals is not symmetric on this pair"
@@ -99,7 +99,7 @@ def oracleC05 (o : Opts) (a b : Json) (diffEmpty implEq : Bool) : String :=
     if identPerm o (subterms a ++ subterms b) then "kf KF-C01-identperm " ++ why
     else if hasPrecisionPair o a b then "kf KF-C05-precision " ++ why
     else if (hasNegZero a || hasNegZero b) then "kf KF-C05-negzero " ++ why
-    else if setMode o && !(aliasFree o (subterms a ++ subterms b)) then "kf KF-C04-alias " ++ why
+    else if !(aliasFree o (subterms a ++ subterms b)) then "kf KF-C04-alias " ++ why
     else "fail " ++ why
 
 def strictListPath (p : Path) : Bool :=
@@ -195,7 +195,7 @@ partial def getAt (o : Opts) (n : Json) : Path → Option Json
 def oracleC07 (o : Opts) (a b : Json) (d : Diff) (loo : List (Outcome Json)) : String :=
   let cls (why : String) : String :=
     if identPerm o (subterms a ++ subterms b) then "kf KF-C01-identperm " ++ why
-    else if setMode o && !(aliasFree o (subterms a ++ subterms b)) then "kf KF-C04-alias " ++ why
+    else if !(aliasFree o (subterms a ++ subterms b)) then "kf KF-C04-alias " ++ why
     else if hasNegZero a || hasNegZero b then "kf KF-C05-negzero " ++ why
     else if hasPrecisionPair o a b then "kf KF-C05-precision " ++ why
     else "fail " ++ why
